@@ -64,7 +64,8 @@ def gen_hostile_case(rng, docopts):
     if 'codex' in case['targets'] and rng.random() < 0.5:
         case['targets']['codex']['options']['codex_home'] = rng.choice([
             'relch', './relch', 'rel/../ch', '../project/up', SB + '/home/x/../ch', '~/../home/ch2', SB + '/home/a/b/../../ch3',
-            SB + '/project//', SB + '/project/./', SB + '/project/.codex', SB + '/project/.codex/skills', ' ' + 'sp', '~', '~/'])
+            SB + '/project//', SB + '/project/./', SB + '/project/.codex', SB + '/project/.codex/skills', ' ' + 'sp', '~', '~/',
+            SB + '/home/pad ', ' ' + SB + '/home/lead', SB + '/home/tab\t', ' ~/tilde '])
     case['profile'] = 'default' if rng.random() < 0.95 else case['profile']
     case['filter'] = 'all' if rng.random() < 0.9 else case['filter']
     case['version'] = 1
@@ -186,7 +187,13 @@ def run_case(args):
                     pass
                 boot = [os.path.join(sb.home, '.claude'), os.path.join(sb.project, '.claude'), os.path.join(sb.project, '.codex/skills')]
                 cho = case['targets'].get('codex', {}).get('options', {}).get('codex_home')
-                if isinstance(cho, str) and cho.strip():
+                # the codex home as the implementation itself reports it for deploy (doctor/plan roots): bootstrap must
+                # resolve the same directory (two resolvers: targets/util.rs codex_home_from_options, cli/util.rs codex_home_for_manifest)
+                rep = [rp for t, rp in (roots or []) if t == 'codex' and rp.endswith('/skills') and not rp.endswith('/.codex/skills')]
+                rep += [os.path.dirname(rp) + '/skills' for t, rp in (roots or []) if t == 'codex' and rp.endswith('/prompts')]
+                if rep:
+                    boot.append(rep[0])
+                elif isinstance(cho, str) and cho.strip():
                     c2 = cho.replace(SB, sb.root)
                     if c2.startswith('~/'): c2 = os.path.join(sb.home, c2[2:])
                     boot.append(os.path.join(sb.project, c2, 'skills'))
@@ -306,6 +313,16 @@ def run(ctx):
     found = 0
     for c in failing[:4]:
         case = R.case_from_json(json.loads(json.dumps(c['case'])))
+        # the same configuration through every further mutating command (a disagreement about roots / paths
+        # becomes an escape when another command resolves the directory differently)
+        for extra in ('bootstrap', 'restore', 'rollback'):
+            out = run_case((case, extra))
+            ctx.count('attack', key=(c['index'], extra), tags=['attack'])
+            if out['bad']:
+                found += 1
+                ctx.violation(out['bad'][0], {'stream': 'hostile_ids', 'case': R.case_json(case), 'extra': extra, 'derived_from': c['index']})
+                break
+        if found: break
         for i, m in enumerate(case['modules']):
             for nm in ('../../esc', SB + '/canary/esc', '..\\..\\esc'):
                 variant = json.loads(json.dumps(R.case_json(case)))
